@@ -1,0 +1,6 @@
+//go:build !verif
+
+package types
+
+// VerifYieldPoint is a no-op unless built with the "verif" tag.
+func VerifYieldPoint(point string) {}
